@@ -52,6 +52,8 @@ structure Sys (P : Type) where
   noStore : Nat → Bool                   -- variables that are not cached (drop / blacklist)
   ckey : Nat → P → P                     -- the period a value is stored under (ETERNITY for an
                                          -- eternal variable, the period itself otherwise)
+  markAll : Bool := false                -- what-if switch (candidate repair of F-C02b, NOT the code):
+                                         -- a spiral marks every frame on the stack
 
 abbrev Node (P : Type) := Nat × P
 
@@ -130,8 +132,10 @@ def run (sys : Sys P) : Nat → St P → Nat → P → Option (Res × Bool × St
   | n+1, s, v, p =>
     match lookup s.cache (sys.slot (v, p)) with
     | some (x, g) =>
-      -- (F-C02a repair) reading an entry already marked for deletion marks every frame
-      let s' := if (v, p) ∈ s.inval then { s with inval := s.stack ++ s.inval } else s
+      -- (F-C02a / F-C02c repair) reading an entry already marked for deletion marks every frame;
+      -- the entry is recognised by its storage slot (an eternal variable marked under one period
+      -- and read under another is the same entry)
+      let s' := if sys.slot (v, p) ∈ s.inval.map sys.slot then { s with inval := s.stack ++ s.inval } else s
       some (.ok x, g, s')
     | none =>
       match sys.input v p with
@@ -141,7 +145,7 @@ def run (sys : Sys P) : Nat → St P → Nat → P → Option (Res × Bool × St
         else if sys.msl ≤ (s.stack.filter (fun k => k.1 = v)).length then
           -- spiral: the default is substituted, not cached; frames are marked
           some (.ok (sys.dflt v), true,
-            { s with inval := (v, p) :: markSpiral v sys.msl s.stack ++ s.inval })
+            { s with inval := (v, p) :: markSpiral v (if sys.markAll then s.stack.length + 1 else sys.msl) s.stack ++ s.inval })
         else
         match sys.formula v p with
         | none =>
